@@ -473,6 +473,34 @@ def cstep (topo : Topo) (s : CState) : CChoice → Except String CState
       let r := taps.foldl (arpReceive fr) (s.caches, [])
       .ok { s with arpFlight := rest ++ r.2, arpLog := s.arpLog ++ r.2, caches := r.1 }
 
+/-! ### loss of ARP frames (the fault schedules of the differential runs)
+
+A network may lose a frame.  For ARP frames this is what makes a resolution run out of its retry
+budget although the owner of the address exists (it answers too late, or its answers get lost),
+after which a later resolution must succeed again.  Loss is not a `CChoice`: a lost frame was sent
+(it stays in `arpLog`) and simply reaches nobody, i.e. `dropArp`; `Props/C16.lean` shows that such
+a step is invisible to the abstract system and does not add weight, so every bound proved for
+`cstep` runs also holds for runs interleaved with losses. -/
+
+/-- which ARP frames a fault schedule takes off the networks while it is active: every ARP frame
+    SENT by machine `node` (its requests and its replies), or (`inbound`) every ARP request FOR
+    one of that machine's own addresses -/
+structure ArpLoss where
+  node : Nat
+  inbound : Bool
+deriving DecidableEq, Repr
+
+def ArpLoss.hits (topo : Topo) (l : ArpLoss) (fr : ArpFrame) : Bool :=
+  if l.inbound then
+    fr.isReq && ((topo.nodes[l.node]?).map (fun nd => nd.localIps.contains fr.tip)).getD false
+  else
+    match tapOwner topo fr.net fr.smac with
+    | some (n, _, _) => n == l.node
+    | none => false
+
+/-- the network loses the a-th ARP frame in flight -/
+def dropArp (s : CState) (a : Nat) : CState := { s with arpFlight := s.arpFlight.eraseIdx a }
+
 /-- canonical schedule of the driver: runnable resolve tasks first (fresh ones, or those whose
     target now has an answering table entry), then ARP frames, then data frames (oldest first), and only when
     nothing else can move a retry timer.  Returns `none` when the system is quiescent. -/
